@@ -299,11 +299,19 @@ func runCheck(prop, tier, repo string, verbose, safety bool, timeout int) int {
 	}
 	work := filepath.Join(root, ".work", prop)
 	os.RemoveAll(work)
+	known := loadKnownFindings()
+	for _, o := range obls {
+		for i := range known {
+			k := &known[i]
+			if k.Property == prop && k.Status == "open" && strings.HasPrefix(oblBase(o.Name), k.Obligation) {
+				o.Known = true
+			}
+		}
+	}
 	genT := time.Since(start).Seconds() - loadT
 	v.solveAll(obls, work, timeout, 16)
 	solveT := time.Since(start).Seconds() - loadT - genT
 
-	known := loadKnownFindings()
 	// group by name
 	groups := map[string]*oblGroup{}
 	var order []string
